@@ -22,7 +22,9 @@
 (***************************************************************************)
 EXTENDS Naturals, Sequences, FiniteSets, SequencesExt, TLC
 
-IsCreate(d) == d.kind = "roCreate"
+(* "roCreateDone": a roCreate document that already carries a completion record (a merged running order written out  *)
+(* and fed back in): it is the roCreate of its collection, and completed from the start                             *)
+IsCreate(d) == d.kind \in {"roCreate", "roCreateDone"}
 IsDelete(d) == d.kind = "roDelete"
 
 SeqRange(s) == { s[i] : i \in DOMAIN s }
@@ -69,6 +71,7 @@ Fold(rs, k, isStrict, comp, appl, failed) ==
             ELSE Fold(rs, k+1, isStrict, comp, appl, Append(failed, rs[k].mid))
        ELSE Fold(rs, k+1, isStrict, comp \/ IsDelete(rs[k]), Append(appl, rs[k].mid), failed)
 
-Expected(ds, isStrict) == Fold(Readers(ds), 1, isStrict, FALSE, <<>>, <<>>)
+StartsCompleted(ds) == TheCreate(ds).kind = "roCreateDone"
+Expected(ds, isStrict) == Fold(Readers(ds), 1, isStrict, StartsCompleted(ds), <<>>, <<>>)
 
 =============================================================================
